@@ -183,6 +183,10 @@ REGISTRY = [
     E("rmse", C, "rmse", "other", True, [("fcst", "real", "fcst"), ("obs", "real", "obs")]),
     E("mse_angular", C, "mse", "mean", True, [("fcst", "angle", "fcst"), ("obs", "angle", "obs")],
       kwargs=lambda c: {"is_angular": True}),
+    E("mae_angular", C, "mae", "mean", True, [("fcst", "angle", "fcst"), ("obs", "angle", "obs")],
+      kwargs=lambda c: {"is_angular": True}),
+    E("rmse_angular", C, "rmse", "other", True, [("fcst", "angle", "fcst"), ("obs", "angle", "obs")],
+      kwargs=lambda c: {"is_angular": True}),
     E("additive_bias", C, "additive_bias", "mean", True, [("fcst", "real", "fcst"), ("obs", "real", "obs")]),
     E("mean_error", C, "mean_error", "mean", True, [("fcst", "real", "fcst"), ("obs", "real", "obs")]),
     E("multiplicative_bias", C, "multiplicative_bias", "other", True, [("fcst", "real", "fcst"), ("obs", "pos", "obs")]),
@@ -332,7 +336,7 @@ def audit_registry():
 
 
 # ----------------------------------------------------------------------------- case generation
-UNIVERSE = ["a", "b", "c"]
+UNIVERSE = ["lat", "b", "time"]   # multi-character names: a bare-string request must not be split into characters
 
 
 def gen_case(rng, e: Entry, data_dims=None, obs_dims=None, weights_dims=None, sizes=None, nan_p=0.0,
